@@ -10,7 +10,8 @@ ASSUME = [
     'library\'s own _init_energies, functors and IdealMixture; all expected values are integers in units of 1/400 J/mol and 1/20 J/mol/K '
     '(tolerance one unit)',
     'the identities "for arbitrary heat-capacity functions, symbolically" are covered only for this polynomial family (every wiring error of the '
-    'nine functors is visible in it); bundled database chemicals are not exercised by this check',
+    'nine functors is visible in it); of the bundled database 8 chemicals (water, alcohols, hydrocarbons, acetone) x 3 reference phases are checked with '
+    'measured identities (reference state, jumps at Tm and Tb, gas pressure term to 10 ppm; dH/dT and dS/dT against a Simpson quadrature of Cn over 20 K to 500 ppm)',
 ]
 
 
@@ -24,6 +25,8 @@ def queries(rng, par, n):
 
 def key_of(par, step, clause):
     a = step['a']
+    if step['op'] == 'db':
+        return 'FreeEnergy:db:%s,ref=%s:%s' % (a['chem'], a['ref'], clause)
     return 'FreeEnergy:%s:ref=%s%s:ph=%s:%s' % (step['op'], par['ref'], '' if par.get('lock', 'none') == 'none' else ',locked', a['ph'], clause)
 
 
@@ -40,16 +43,35 @@ def run(ctx):
     sample = pairs if not quick else rng.sample(pairs, min(150, len(pairs)))
     traces = []
     for k, st in enumerate(sample):
-        w = df.World(st['par'], st['mix'])
+        st = dict(st, via=rng.choice(['same', 'inplace_other', 'copy_other']))     # how phase-locked chemicals are made (driver)
+        w = df.World(st['par'], st['mix'], st['via'])
         steps = []
         for op, a in queries(rng, st['par'], 12 if quick else 30):
             obs = w.apply(op, a)
             steps.append(dict(op=op, a=a, post=w.project(), obs=obs))
         for _ in range(4 if quick else 8):
-            a = dict(ph=rng.choice('slg'), T20=rng.choice([5000, 5963, 6400, 8000]), n1=rng.choice([0, 1, 2, 3]), n2=rng.choice([1, 2, 5]))
+            a = dict(ph=rng.choice('slg'), T20=rng.choice([5000, 5963, 6400, 8000]), n1=rng.choice([0, 1, 2, 3]), n2=rng.choice([1, 2, 5]),
+                     sc=rng.choice([0, 0, -40, -60, 20]))
             obs = w.apply('mix', a)
             steps.append(dict(op='mix', a=a, post=w.project(), obs=obs))
+        for _ in range(3 if quick else 6):
+            labels = rng.sample(['s', 'l', 'g', 'S', 'L'], rng.randint(1, 4))
+            if rng.random() < 0.5:
+                labels = list(dict.fromkeys(labels + rng.choice([['l', 'L'], ['s', 'S']])))
+            rows = [[ph, rng.choice([0, 1, 2]), rng.choice([1, 3])] for ph in labels]
+            a = dict(T20=rng.choice([5000, 5963, 6400, 8000]), rows=rows, ph='x')
+            obs = w.apply('xmix', a)
+            steps.append(dict(op='xmix', a=a, post=w.project(), obs=obs))
         traces.append(dict(id='F%d' % k, mode='fan', init=st, steps=steps))
+    # chemicals of the bundled database, every reference phase (measured identities)
+    db = [(c, ref) for c in df.DB_CHEMS for ref in 'slg']
+    st = dict(sample[0], via='same')
+    w = df.World(st['par'], st['mix'])
+    steps = []
+    for c, ref in (db if not quick else db):
+        a = dict(chem=c, ref=ref)
+        steps.append(dict(op='db', a=a, post=w.project(), obs=w.apply('db', a)))
+    traces.append(dict(id='DB', mode='fan', init=st, steps=steps))
     defs, cfgc = df.tla_constants()
     v = tlc.validate_traces('FreeEnergy', defs, cfgc, traces, procs=16)
     n_steps = 0
@@ -66,7 +88,7 @@ def run(ctx):
                rule='MC: reference-state, derivative, jump and reference-shift identities of the path definition on the whole parameter grid '
                     '(3 reference phases x heat-capacity coefficients x 4 (Tm, Tb) placements around T_ref x S0); for each grid point a real Chemical is '
                     'built and H, S (three pressures), Cn in all three phases at transition and off-transition temperatures, and the mixture H, Cn, S of two '
-                    'such chemicals, are validated by TLC against the path definition')
+                    'such chemicals (also with scaled amounts and in the multi-phase forms xH / xCn / xS), are validated by TLC against the path definition; database chemicals: measured identities')
     return 'model_checking', cov, ASSUME
 
 
@@ -75,7 +97,7 @@ def replay(ctx, data):
     if rp.get('kind') != 'step':
         print(rp.get('counterexample', '# nothing executable'))
         return 1
-    w = df.World(rp['init']['par'], rp['init']['mix'])
+    w = df.World(rp['init']['par'], rp['init']['mix'], rp['init'].get('via', 'same'))
     steps = []
     for s in rp['steps']:
         obs = w.apply(s['op'], s['a'])
